@@ -1708,7 +1708,7 @@ fn main() {
                 // "impl:Key/method/inner" -> nested key "method/inner"
                 let parts: Vec<&str> = rest.rsplitn(3, '/').collect();
                 if parts.len() == 3 {
-                    nested.insert(format!("{}/{}", parts[1], parts[0]), u.clone());
+                    nested.insert(format!("{}/{}/{}", parts[2], parts[1], parts[0]), u.clone());
                 }
             }
         }
@@ -2005,7 +2005,7 @@ fn main() {
                             }
                         }
                         let vis = if inherent { m.vis.clone() } else { m.vis.clone() };
-                        process_fn(&mut fc, &m.attrs, &vis, &m.sig, Some(&m.block), &u, &nested, &m.sig.ident.to_string(), false);
+                        process_fn(&mut fc, &m.attrs, &vis, &m.sig, Some(&m.block), &u, &nested, &format!("{}/{}", key, m.sig.ident), false);
                         if inherent || im.trait_.is_none() {
                             let s = range_of(&m.sig).0;
                             make_pub(&mut fc, &m.vis, s);
